@@ -46,6 +46,14 @@ func coqOp(o *Op) string {
 		return fmt.Sprintf("OExit %d", o.A)
 	case "hang":
 		return "OHang"
+	case "grant":
+		return fmt.Sprintf("OGrant %d", o.A)
+	case "revoke":
+		return fmt.Sprintf("ORevoke %d", o.A)
+	case "dep":
+		return fmt.Sprintf("OMove %d %d %s", IDScript, IDDeposit, coqZs(o.V))
+	case "wdr":
+		return fmt.Sprintf("OMove %d %d %s", IDDeposit, IDScript, coqZs(o.V))
 	}
 	return "OLog 0"
 }
@@ -96,6 +104,25 @@ func coqLogs(l []LogEnt) string {
 	return "[" + strings.Join(parts, "; ") + "]"
 }
 
+func coqIds(l []int) string {
+	parts := make([]string, len(l))
+	for i, v := range l {
+		if v < 0 {
+			v = 999999
+		}
+		parts[i] = fmt.Sprintf("%d", v)
+	}
+	return "[" + strings.Join(parts, "; ") + "]"
+}
+
+func coqIdx(l []int) string {
+	parts := make([]string, len(l))
+	for a, v := range l {
+		parts[a] = fmt.Sprintf("(%d, (%d)%%Z)", a, v)
+	}
+	return "[" + strings.Join(parts, "; ") + "]"
+}
+
 func coqBtp(l []int64) string {
 	parts := make([]string, len(l))
 	for i, v := range l {
@@ -114,10 +141,10 @@ func CoqCase(in *BlockIn, obs *BlockObs) string {
 	for i := range in.Txs {
 		o := &obs.Txs[i]
 		txs[i] = coqTx(&in.Txs[i], o.DataLen)
-		os[i] = fmt.Sprintf("(mkO %d %s %s %s %s %s %s)", o.Status, coqZ(o.Used), coqZ(o.Price),
-			coqLogs(o.Logs), coqBtp(o.Btp), coqBals(o.Bal), coqStos(o.Sto))
+		os[i] = fmt.Sprintf("(mkO %d %s %s %s %s %s %s %s %s)", o.Status, coqZ(o.Used), coqZ(o.Price),
+			coqLogs(o.Logs), coqBtp(o.Btp), coqBals(o.Bal), coqStos(o.Sto), coqIds(o.Vals), coqIdx(o.Idx))
 	}
-	return fmt.Sprintf("(Block %s %s %s\n  [%s]\n  [%s]\n  %s)", coqParams(&in.P), coqBals(obs.PreBal), coqStos(obs.PreSto),
+	return fmt.Sprintf("(Block %s %s %s %s\n  [%s]\n  [%s]\n  %s)", coqParams(&in.P), coqBals(obs.PreBal), coqStos(obs.PreSto), coqIds(obs.PreVals),
 		strings.Join(txs, ";\n   "), strings.Join(os, ";\n   "), coqBals(obs.Final))
 }
 
@@ -296,6 +323,16 @@ func OracleC16(in *BlockIn, obs *BlockObs) string {
 		if len(o.Btp) != 0 {
 			return fmt.Sprintf("tx %d failed with status %d but its receipt has %d BTP message(s)", i, o.Status, len(o.Btp))
 		}
+		pvals, pidx := obs.PreVals, obs.PreIdx
+		if i > 0 {
+			pvals, pidx = obs.Txs[i-1].Vals, obs.Txs[i-1].Idx
+		}
+		if fmt.Sprint(o.Vals) != fmt.Sprint(pvals) {
+			return fmt.Sprintf("tx %d failed with status %d: validator list is %v, was %v", i, o.Status, o.Vals, pvals)
+		}
+		if fmt.Sprint(o.Idx) != fmt.Sprint(pidx) {
+			return fmt.Sprintf("tx %d failed with status %d: ValidatorState.IndexOf of accounts 0..4 is %v, was %v (validators %v)", i, o.Status, o.Idx, pidx, o.Vals)
+		}
 		for a := range o.Bal {
 			exp := new(big.Int).Set(pre[a])
 			if a == tx.From {
@@ -329,7 +366,7 @@ func FailedAfterMutation(in *BlockIn, obs *BlockObs) bool {
 		}
 		for _, op := range tx.Ops {
 			switch op.K {
-			case "set", "move", "log", "btp", "xfer":
+			case "set", "move", "log", "btp", "xfer", "grant", "revoke", "dep", "wdr":
 				return true
 			}
 		}
@@ -456,7 +493,13 @@ func genOps(r *rand.Rand, bal []*big.Int, failing bool) []Op {
 		}
 	}
 	for i := 0; i < n; i++ {
-		switch r.Intn(13) {
+		switch r.Intn(16) {
+		case 13:
+			ops = append(ops, Op{K: []string{"grant", "grant", "revoke"}[r.Intn(3)], A: r.Intn(IDTreasury + 1)})
+		case 14:
+			ops = append(ops, Op{K: "dep", V: amtFor(IDScript)})
+		case 15:
+			ops = append(ops, Op{K: "wdr", V: amtFor(IDDeposit)})
 		case 0, 1, 2:
 			ops = append(ops, Op{K: "set", A: r.Intn(NAcct), B: r.Intn(NKeys), V: fmt.Sprint(r.Intn(4))})
 		case 3, 4, 5:
@@ -537,7 +580,13 @@ func genTimeoutOps(r *rand.Rand, bal []*big.Int, from int) []Op {
 	mut := func() []Op {
 		var ops []Op
 		for n := 1 + r.Intn(3); n > 0; n-- {
-			switch r.Intn(5) {
+			switch r.Intn(8) {
+			case 5:
+				ops = append(ops, Op{K: []string{"grant", "revoke"}[r.Intn(2)], A: r.Intn(IDTreasury + 1)})
+			case 6:
+				ops = append(ops, Op{K: "dep", V: dec(new(big.Int).Div(bal[IDScript], big.NewInt(int64(2+r.Intn(9)))))})
+			case 7:
+				ops = append(ops, Op{K: "wdr", V: dec(new(big.Int).Div(bal[IDDeposit], big.NewInt(int64(2+r.Intn(9)))))})
 			case 0, 1:
 				ops = append(ops, Op{K: "set", A: r.Intn(NAcct), B: r.Intn(NKeys), V: fmt.Sprint(1 + r.Intn(4))})
 			case 2:
@@ -703,6 +752,28 @@ func GenTx(r *rand.Rand, p *Params, bal []*big.Int, scriptBias int) Tx {
 			tx.Ops = []Op{{K: "log", A: 7}, {K: "btp", A: 8}, {K: "set", A: r.Intn(NAcct), B: r.Intn(NKeys), V: "4"},
 				{K: "move", A: tx.From, B: (tx.From + 1 + r.Intn(3)) % NAcct, V: dec(left)}, {K: "log", A: 9}}
 		}
+	} else if len(tx.Ops) > 0 && price.Sign() > 0 && r.Intn(100) < 8 {
+		// malformed stream (Verify() rejects negative values): a NEGATIVE value lets the balance
+		// pre-check pass although the sender cannot even pay the steps of a successful call:
+		// success -> fee unpayable -> rollback -> STILL unpayable -> second round of Execute's
+		// out-of-balance loop (price 0).  The only way to reach that round without LegacyBalanceCheck.
+		poor := 0
+		for i := 1; i < NEOA; i++ {
+			if bal[i].Cmp(bal[poor]) < 0 {
+				poor = i
+			}
+		}
+		t2 := tx
+		t2.From, t2.Async = poor, r.Intn(2) == 0
+		t2.Ops = []Op{{K: "log", A: 11}, {K: "set", A: r.Intn(NAcct), B: r.Intn(NKeys), V: "2"}}
+		_, d2 := dataOf(&t2)
+		need2 := p.CDefault + p.CInput*int64(len(d2)) + p.CCall
+		limit := big.NewInt(need2 + int64(r.Intn(100)))
+		if need2 > 0 && bal[poor].Cmp(new(big.Int).Mul(price, big.NewInt(need2))) < 0 {
+			t2.Limit = dec(limit)
+			t2.Value = dec(new(big.Int).Sub(bal[poor], new(big.Int).Mul(price, limit)))
+			tx = t2
+		}
 	} else if r.Intn(40) == 0 {
 		tx.Value = fmt.Sprint(-1 - r.Intn(1000)) // malformed: Verify() rejects it, Execute must still be safe
 	}
@@ -713,7 +784,11 @@ func GenTx(r *rand.Rand, p *Params, bal []*big.Int, scriptBias int) Tx {
 // scriptBias: percentage of transactions forced to be scripted calls.
 func GenBlock(r *rand.Rand, maxTx int, scriptBias int) *BlockIn {
 	in := &BlockIn{P: GenParams(r)}
-	bal := make([]*big.Int, NAcct)
+	nv := 1 + r.Intn(3)
+	for _, a := range r.Perm(IDTreasury + 1)[:nv] {
+		in.Vals = append(in.Vals, a)
+	}
+	bal := make([]*big.Int, NUniv)
 	for i := range bal {
 		bal[i] = genBalance(r, &in.P)
 		if i == IDNoContract || (i >= NEOA && r.Intn(2) == 0) {
